@@ -495,6 +495,13 @@ func (c07) Exec(sc *sim.Scenario, env *sim.Env) *sim.Violation {
 		if v := accessorViolation(after, i, op); v != nil {
 			return v
 		}
+		if out.Refused == "cap" && e != orig {
+			// the program has outgrown the 256-byte target while a block of it is being emitted
+			// into a clone (which has a buffer of its own and accepts): whether and when that is
+			// refused is C16's and C19's subject, and the program is not one the target holds
+			st.Abort("program_exceeds_target_inside_clone")
+			return nil
+		}
 		if out.Refused == "cap" {
 			if op.K == "rep" || op.K == "sep" {
 				// a REP/SEP refused for capacity has already updated the tracker (known quirk, not
